@@ -1,13 +1,13 @@
 (* Property C03: progress -- a run that can finish does finish; failures and windows never wedge it.
-   Only property theorems here. Model R.  The progress statement itself is NOT proved (see the
-   end of the file); what is proved are the facts that rule out the mechanisms by which a failure
-   or a window could wedge a run: no slot leaks, no wake-up is lost, eligible jobs are started,
-   switching outcomes between return and raise preserves completion, the timeout path is taken at
-   the deadline.  The check decides the rest on the implementation (deadlock and livelock
-   detection under the virtual-time loop on trees the model classifies as admissible).
+   Only property theorems here. Model R, level 3.  Proved: deadlock freedom of every admissible tree
+   (C03_progress) and the facts behind it: no slot leaks, no wake-up is lost, eligible jobs are
+   started, switching outcomes between return and raise preserves completion, the timeout path is
+   taken at the deadline.  Not proved: a bound on the length of executions (livelock freedom); the
+   check looks for deadlocks and livelocks on the implementation under the virtual-time loop, on
+   trees the extracted model classifies as admissible.
    C03_failures_never_wedge depends on the standard-library axiom functional_extensionality_dep. *)
 From AJ Require Import Common.Util Run.RModel Run.RFacts Run.RFacts2 Run.RInv Run.RMon Run.RProps2 Run.RProps3
-  Run.RWin Run.RProps4 Run.RFlip Run.RShut1 Run.RShut2 Run.RTime Run.RAdm Props.RExample.
+  Run.RWin Run.RProps4 Run.RFlip Run.RShut1 Run.RShut2 Run.RTime Run.RAdm Run.RInvP Run.RProgA Run.RProgS Run.RProg Props.RExample.
 
 (* however many non-critical jobs raise: complete runs stay complete when outcomes are switched *)
 Theorem C03_failures_never_wedge : forall F lvl c h, flippable F c ->
@@ -43,13 +43,34 @@ Theorem C03_timeout_is_honoured : forall lvl c h s n, wf c = true -> 2 <= lvl ->
 Proof. intros lvl c h s n W Hl Hr. apply (t_run c s (InvT_reach lvl c h s W Hl Hr)). Qed.
 Print Assumptions C03_timeout_is_honoured.
 
-(* NOT PROVED.  [admissible] (Run/RAdm.v) formalises the hypotheses of the property; the statement
-   below says that an admissible tree is never stuck before its end.  The check evaluates
-   [admissible] on every generated tree with the extracted code and requires the implementation to
-   terminate on those. *)
-Definition C03_progress_full_statement : Prop :=
-  forall c h s, admissible c = true -> Reach 3 c h s -> terminal c s = false ->
-    exists e s', step 3 c s e = Some s' /\ match e with EPoll _ _ => False | _ => True end.
+(* PROGRESS.  [admissible] (Run/RAdm.v) formalises the hypotheses of the property: the tree is
+   well formed (acyclic, closed); every scheduler with no timeout at or above it owns a non-forever
+   job, contains no non-forever job that never ends or that requires (directly or not) a job that
+   never ends, and has a window larger than the number of never-ending or blocked jobs it may hold;
+   a handler that never ends has a finite shutdown_timeout right above.  Then no reachable state
+   other than the end of the run is stuck: some job, handler or scheduler event is enabled, or the
+   clock can move to the next deadline.  Whatever the completion order, however many non-critical
+   jobs raise, however small the windows; schedulers under a timeout need no hypothesis at all. *)
+Theorem C03_progress : forall c h s, admissible c = true -> Reach 3 c h s -> terminal c s = false ->
+  exists e s', step 3 c s e = Some s' /\ match e with EPoll _ _ => False | _ => True end.
+Proof. exact progress. Qed.
+Print Assumptions C03_progress.
+
+(* its two halves: the enabledness flags on which the clock rule (level 2) relies are faithful ... *)
+Theorem C03_flags_are_faithful : forall c h s, wf c = true -> Reach 3 c h s -> InvP c s -> InvQ c s ->
+  quiescent c s = false -> exists e s', step 3 c s e = Some s' /\ real_event e.
+Proof. exact enabled_progress_reach. Qed.
+Print Assumptions C03_flags_are_faithful.
+
+(* ... and a dead state (nothing enabled, no deadline pending) is the end of the run *)
+Theorem C03_no_dead_state : forall c h s, wf c = true -> admissible c = true -> Reach 3 c h s ->
+  InvP c s -> InvQ c s -> quiescent c s = true -> deadlines c s = [] ->
+  ph (Rn s 0) = PIdle \/ ph (Rn s 0) = POver.
+Proof. exact dead_state_is_final. Qed.
+Print Assumptions C03_no_dead_state.
+
+(* NOT PROVED: a bound on the length of executions (no livelock).  The check detects a livelock on
+   the implementation as a virtual-time horizon. *)
 
 Example C03_nonvacuous :
   admissible ex_cfg = true /\ completes 3 ex_cfg ex_hist = true /\ j_window (jc ex_cfg 0) = 2 /\
